@@ -1,11 +1,16 @@
 check("C01", "model_checking",
-      "An executable TLA+ semantics (Machine.tla over Wide.tla limb arithmetic) is the oracle: TLC evaluates the complete "
-      "operator x type x boundary-operand matrix and runs every accepted control-flow skeleton up to the bound; every cell and "
-      "skeleton is compiled by the real compiler, executed with lli and compared on full stdout; random well-typed programs "
-      "are compiled and executed and TLC validates their recorded output by running the machine on the logged program. "
-      "Each program runs in several layouts that must agree.",
-      "Trusted: TLC, Machine.tla/Wide.tla (Wide is model-checked against native arithmetic for 8/16 bits), decimal<->limb conversion in "
-      "Python, lli. Stage 1 of the design: all integer widths, bool, casts, blocks/goto/if-else/loop, calls by value, constants, arrays "
-      "by value; pointers, views/slices as parameters, structs and words are not yet in the machine. Random programs: 240 quick / 3000 thorough.",
-      "TLA+ operational semantics (Machine.tla) evaluated by TLC: exhaustive operator matrix and control-flow skeletons replayed on the compiler; TLC trace validation of recorded program output",
+      "An executable TLA+ semantics (Machine.tla over Wide.tla limb arithmetic; places = [frame, variable, path] with read-only views, "
+      "autoderef by address-marker count, nested runs for call expressions) is the oracle: TLC evaluates the complete operator x type x "
+      "boundary-operand matrix, runs every accepted control-flow skeleton up to the bound (also with two label names) and every "
+      "caller/callee program of MC_MachinePtr (parameter kind x argument form x way the callee treats it), checking non-interference, "
+      "legality and the machine's monitors as invariants; every cell, skeleton and program is compiled by the real compiler, executed with "
+      "lli and compared on full stdout (programs the machine refuses must be rejected); random well-typed programs over the whole "
+      "documented language are compiled and executed and TLC validates their recorded output by running the machine on the logged "
+      "program. Each program runs in several layouts that must agree.",
+      "Trusted: TLC, Machine.tla/Wide.tla (Wide is model-checked against native arithmetic for 8/16 bits), Layout.tla, decimal<->limb "
+      "conversion in Python, lli. Stage 3 of the design: all integer widths, bool, casts, blocks/goto/if-else/loop, calls in statements and "
+      "expressions, pointers with explicit address assignment, views, slice pointers, lengths, multi-dimensional arrays, structs, words, "
+      "constants of aggregate type, size-of. Unconstrained (kept out, docs/notes-machine.md): evaluation order of sibling operands with "
+      "side effects, functions returning pointers, char8 arithmetic, printing of pointers. Random programs: 240 quick / 4000 thorough.",
+      "TLA+ operational semantics (Machine.tla) evaluated by TLC: exhaustive operator matrix, control-flow skeletons and caller/callee family replayed on the compiler; TLC invariants for non-interference; TLC trace validation of recorded program output",
       "DESIGN.md section 5 C01")
